@@ -87,6 +87,10 @@ def run(ctx):
         l1, l2 = rng.randint(0, 8), rng.randint(0, 8)
         if rng.random() < 0.02:
             l1, l2 = rng.randint(15, 45), rng.randint(15, 45)      # scale-up slice
+            if rng.random() < 0.12:
+                l1 = rng.randint(262, 310)
+                l2 = l1 + rng.randint(-4, 4)      # beyond 256 symbols (small-int identity)
+                ctx.count("sequences_longer_than_256")
             ctx.count("long_sequences")
         akind, alpha = rng.choice(ALPHAS)       # symbols need not be single characters
         ctx.count("alphabet:" + akind)
